@@ -12,6 +12,28 @@ PSC = "berty.tech/go-orbit-db/pubsub/pubsubcoreapi"
 OOO = "berty.tech/go-orbit-db/pubsub/oneonone"
 
 CHECKS = {
+    "C01": {
+        "groups": [{
+            "pkg": KV, "funcs": ["VerifC01KV"],
+            "params": {"quick": {"STEPS": 3}, "thorough": {"STEPS": 4}},
+            "max_paths": {"quick": 60000, "thorough": 600000},
+            "timeout": {"quick": "10m", "thorough": "60m"},
+            "covers": {"VerifC01KV": ["converged"]},
+        }, {
+            "pkg": EL, "funcs": ["VerifC01Log"],
+            "params": {"quick": {"STEPS": 3}, "thorough": {"STEPS": 5}},
+            "max_paths": {"quick": 60000, "thorough": 600000},
+            "timeout": {"quick": "10m", "thorough": "60m"},
+            "covers": {"VerifC01Log": ["converged"]},
+        }],
+        "assumptions": [
+            "two writers (real stores built by InitBaseStore over a shared block store) produce a history of STEPS steps, each a local write with symbolic key/value or a real head exchange (Sync -> replicator -> ipfs-log fetcher -> Join) in either direction, in any order; then both exchange heads and a fresh replica receives everything in one batch",
+            "the real ipfs-log Append/Join/traverse/sorting run in the interpreter; IPFS is a content-addressed block store stub with perfect hashing; identities use perfect symbolic signatures",
+            "oracle: identical ordered hash lists and identical views on all three replicas; the view equals the replay of the replica's own log",
+            "distinct entries never share (Lamport time, writer key): holds by construction (each identity writes through one live store)",
+        ],
+        "outside": ["more than two writers / longer histories", "routes Load-from-cache and snapshot are decided in C05/C15/C13 harnesses", "Go map iteration orders other than insertion order", "byte-level JSON/CBOR"],
+    },
     "C15": {
         "groups": [{
             "pkg": BS, "funcs": ["VerifC15Load"],
@@ -91,6 +113,12 @@ CHECKS = {
             "max_paths": {"quick": 60000, "thorough": 400000},
             "timeout": {"quick": "10m", "thorough": "40m"},
             "covers": {"VerifC06Replay": ["replayed"]},
+        }, {
+            "pkg": KV, "funcs": ["VerifC01KV"],
+            "params": {"quick": {"STEPS": 3}, "thorough": {"STEPS": 4}},
+            "max_paths": {"quick": 60000, "thorough": 600000},
+            "timeout": {"quick": "10m", "thorough": "60m"},
+            "covers": {"VerifC01KV": ["converged"]},
         }],
         "assumptions": [
             "listing of N operations in log order with symbolic 1-byte keys (any collision pattern), op kind PUT/DEL, value nil / empty / 1 symbolic byte",
@@ -98,7 +126,7 @@ CHECKS = {
             "store built by the real NewOrbitDBKeyValue/InitBaseStore over stub IPFS/bus/cache; the log handed to the index is a stub exposing Values()",
             "encoding/json replaced by an idealised injective codec driven by the struct tags (omitempty honoured)",
         ],
-        "outside": ["N beyond the bound", "keys longer than 1 byte / non-UTF-8 keys rewritten by real JSON", "the happens-before part is decided with the real ipfs-log in the C01 harnesses"],
+        "outside": ["N beyond the bound", "keys longer than 1 byte / non-UTF-8 keys rewritten by real JSON", "histories longer than STEPS with the real ipfs-log (VerifC01KV checks view == replay of the held log after every step of a two-writer history, which includes the happens-before clause because the log order comes from the real Append/Join clocks)"],
     },
     "C07": {
         "groups": [{
@@ -122,10 +150,18 @@ CHECKS = {
             "pkg": EL, "funcs": ["VerifC08Window"],
             "params": {"quick": {"N": 4}, "thorough": {"N": 6}},
             "covers": {"VerifC08Window": ["window-computed"]},
+        }, {
+            "pkg": EL, "funcs": ["VerifC01Log", "VerifC08Concurrent"],
+            "params": {"quick": {"STEPS": 3, "P": 1}, "thorough": {"STEPS": 5, "P": 2}},
+            "max_paths": {"quick": 60000, "thorough": 800000},
+            "timeout": {"quick": "10m", "thorough": "90m"},
+            "covers": {"VerifC01Log": ["converged"], "VerifC08Concurrent": ["raced"]},
         }],
         "assumptions": [
             "listing of N entries with distinct hashes; one bound kind (none/GT/GTE/LT/LTE) at every position; Amount unset or ANY 64-bit integer (symbolic)",
             "store built by the real NewOrbitDBEventLogStore/InitBaseStore over stubs; index fed through the real eventIndex.UpdateIndex",
+            "order stability: two writers, STEPS steps of local Add / real head exchange in any order; after every step the previous listing is a subsequence of the new one, own entries are in write order and a new entry follows everything its writer had seen; Get by address returns the entry",
+            "a local Add racing with the merge of a remote batch on the same replica: every schedule with at most P preemptions (switch to another runnable thread, or set the running thread aside until nothing else can run) at visible operations",
         ],
         "outside": ["bound hashes not in the log (excluded by the property)", "two bounds at once", "N beyond the bound"],
     },
